@@ -42,6 +42,12 @@ TRUSTED_BASE = [
 ]
 
 
+def _limit_memory():
+    """a runaway evaluation must not take the machine down: 12 GB of address space per coqc"""
+    import resource
+    resource.setrlimit(resource.RLIMIT_AS, (12 << 30, 12 << 30))
+
+
 def env_for_impl():
     e = dict(os.environ)
     e["PYTHONPATH"] = REPO
@@ -227,8 +233,8 @@ class Run:
         path = os.path.join(self.work, base + ".v")
         with open(path, "w") as f:
             f.write(src)
-        r = subprocess.run(["timeout", str(timeout), "coqc", "-Q", COQDIR, "Isobar", path],
-                           capture_output=True, text=True, cwd=self.work)
+        r = subprocess.run(["timeout", str(timeout), "coqc", "-noglob", "-Q", COQDIR, "Isobar", path],
+                           capture_output=True, text=True, cwd=self.work, preexec_fn=_limit_memory)
         if r.returncode != 0:
             raise CheckError("coqc failed on %s:\n%s" % (path, (r.stdout + r.stderr)[-3000:]))
         return r.stdout
